@@ -107,6 +107,7 @@ def selftest(ck, muts):
 def consumer_sessions(ck, picks):
     """a started XKNX decodes each picked (class, payload) on a configured group address; afterwards the consumer must
     still process a probe telegram"""
+    from xknx.exceptions import ConversionError
     from xknx.telegram import GroupAddress, IndividualAddress, Telegram, TelegramDirection
     from xknx.telegram.apci import GroupValueResponse, GroupValueWrite
 
@@ -124,7 +125,11 @@ def consumer_sessions(ck, picks):
                 ga = GroupAddress(1 + k % 60000)
                 xknx.group_address_dpt._ga_dpts[ga.raw] = cls
                 n0 = len(seen)
-                for pl in (GroupValueWrite(p), GroupValueResponse(p)):
+                try:
+                    pls = (GroupValueWrite(p), GroupValueResponse(p))
+                except ConversionError:
+                    continue            # not a payload a group telegram can carry (empty array, more than 253 octets)
+                for pl in pls:
                     xknx.telegrams.put_nowait(Telegram(destination_address=ga, direction=TelegramDirection.INCOMING, payload=pl,
                                                        source_address=IndividualAddress(0x1105)))
                 for _ in range(6):
